@@ -47,6 +47,12 @@ def cases(rng, tier, Case):
         d = biased_doc(rng)
         cfg = rng.choice(["CsW", "CsW", "Cs", mdgen.gen_cfg(rng, require="p")])
         res.append(Case("parse %s 100 T %s" % (cfg, hx(d)), "gen", {"cfg": cfg, "src": hx(d)}))
+    # characters a parser might be tempted to strip or normalise before it records offsets: a byte order mark (seed C05-9),
+    # other format characters, NUL, at the very start of the document and of later lines
+    for lead in ("\ufeff", "\ufeff\ufeff", "\u200b", "\u2060", "\0", "\u00ad", "\ufeff \t", "\u200e"):
+        for d in ("# h *e*\n\npara `c` &amp; \\*", "*a* [l](u)\n> q\n\n- i", "&amp; text\n===", "```\nx\n```\n\n    code"):
+            for doc in (lead + d, d.replace("\n", "\n" + lead, 1), "x\n\n" + lead + d):
+                res.append(Case("parse CsW 100 T %s" % hx(doc), "lead", {"cfg": "CsW", "src": hx(doc)}))
     return res
 
 
